@@ -783,6 +783,8 @@ func checkC10Linking(c *Ctx, r *Report) {
 			return []skipSpec{
 				{Cond: w.commaOkOf(fi, "lookup", "map[string]core/annotations.Attribute"), Pol: true, Desc: "parameter was referenced"},
 				{Cond: w.nilTestOf(fi, "*core/metadata.FuncParam"), Pol: true, Desc: "internal inconsistency (cannot happen: names come from the same list)"},
+				{Cond: w.commaOkOf(fi, "lookup", "map[string]core/metadata.FuncParam"), Pol: false, Desc: "the same inconsistency, asked of a by-name index of the parameters"},
+				{Cond: w.commaOkOf(fi, "lookup", "map[string]*core/metadata.FuncParam"), Pol: false, Desc: "the same inconsistency, asked of a by-name index of the parameters"},
 				{Cond: w.condCalls(fi, "(core/metadata.TypeUsageMeta).IsContext"), Pol: true, Desc: "context parameter"},
 			}
 		}, false,
